@@ -103,6 +103,21 @@ def c0 : JCtx := { handlers := [], inTell := false }
 
 /-! ### statements -/
 
+/-- an infix operation: the only trees whose text is wholly parenthesised (`_is_parenthesized`, F160) -/
+def isBinJ : JE → Bool
+  | .bin _ _ _ => true
+  | _ => false
+
+/-- a condition WITHOUT its outer pair of parentheses: the text between `if (` and `) {`, the middle part of a `for` header -/
+def txBare : JE → Str
+  | .bin op a b => txJ a ++ S " " ++ op ++ S " " ++ txJ b
+  | e => txJ e
+
+def prBare : JE → List JTok
+  | .bin op a b => prJ a ++ (jsOpTok op).getD (.p .plus) :: prJ b
+  | e => prJ e
+
+mutual
 /-- tokens of one statement as the translator writes it -/
 def prS : JS → List JTok
   | .expr e => prJ e ++ [.p .semi]
@@ -111,9 +126,20 @@ def prS : JS → List JTok
   | .ret (e :: _) => .id "return".toList :: prJ e ++ [.p .semi]
   | .var n => [.id "var".toList, .id n, .p .semi]
   | .brk => [.id "break".toList, .p .semi]
+  | .ifs c t e =>
+    .id "if".toList :: .p .lp :: prBare c ++ .p .rp :: .p .lc :: prBody t ++
+      (if e.isEmpty then [.p .rc] else .p .rc :: .id "else".toList :: .p .lc :: prBody e ++ [.p .rc])
+  | .while c b => .id "while".toList :: .p .lp :: prBare c ++ .p .rp :: .p .lc :: prBody b ++ [.p .rc]
+  | .for3 v a c d b =>
+    .id "for".toList :: .p .lp :: prJ v ++ .p .assign :: prJ a ++ .p .semi :: prBare c ++ .p .semi :: prJ v ++
+      (if d then JTok.p .dec else JTok.p .inc) :: .p .rp :: .p .lc :: prBody b ++ [.p .rc]
   | _ => []
+def prBody : List JS → List JTok
+  | [] => []
+  | s :: ss => prS s ++ prBody ss
+end
 
-/-- text of one statement line WITHOUT indentation and line end -/
+/-- text of one SIMPLE statement line WITHOUT indentation and line end -/
 def txS : JS → Str
   | .expr e => txJ e ++ S ";"
   | .assign l r => txJ l ++ S " = " ++ txJ r ++ S ";"
@@ -123,14 +149,23 @@ def txS : JS → Str
   | .brk => S "break;"
   | _ => []
 
-def prBody : List JS → List JTok
-  | [] => []
-  | s :: ss => prS s ++ prBody ss
-
+mutual
+/-- the lines of one statement at indentation level `ind`: a simple statement is one line; `if (c) {` … `} else {` … `}`,
+    `while (c) {` … `}`, `for(v = a; c; v++) {` … `}` with the bodies one level deeper -/
+def txT (ind : Nat) : JS → Str
+  | .ifs c t e =>
+    Lscr.indentOf ind ++ S "if (" ++ txBare c ++ S ") {\n" ++ txBody (ind + 1) t ++
+      (if e.isEmpty then [] else Lscr.indentOf ind ++ S "} else {\n" ++ txBody (ind + 1) e) ++ Lscr.indentOf ind ++ S "}\n"
+  | .while c b => Lscr.indentOf ind ++ S "while (" ++ txBare c ++ S ") {\n" ++ txBody (ind + 1) b ++ Lscr.indentOf ind ++ S "}\n"
+  | .for3 v a c d b =>
+    Lscr.indentOf ind ++ S "for(" ++ txJ v ++ S " = " ++ txJ a ++ S "; " ++ txBare c ++ S "; " ++ txJ v ++
+      (if d then S "--" else S "++") ++ S ") {\n" ++ txBody (ind + 1) b ++ Lscr.indentOf ind ++ S "}\n"
+  | s => Lscr.indentOf ind ++ txS s ++ S "\n"
 /-- the lines of a body at indentation level `ind` -/
 def txBody (ind : Nat) : List JS → Str
   | [] => []
-  | s :: ss => Lscr.indentOf ind ++ txS s ++ S "\n" ++ txBody ind ss
+  | s :: ss => txT ind s ++ txBody ind ss
+end
 
 /-- assignment targets (the four variable kinds; `me` is not assignable) -/
 def JsOkLv : Expr → Bool
@@ -154,18 +189,44 @@ def JsOkSs : List Stmt → Bool
   | [] => true
   | s :: ss => JsOkS s && JsOkSs ss
 
-/-- `Link.EmbS` refined by the one field the JavaScript generator reads beyond it: `CallFunction.with_result`, which the
-    model's opcode step sets for the local-call opcode `56` (a handler of the same script) and clears for `57` -/
+mutual
+/-- structured statements of the JavaScript link theorems: the simple statements of `JsOkS`, `if c then … [else …]`,
+    `repeat while c`, `repeat with <local> = a [down] to b`, nested without bound -/
+def JsOkT : Stmt → Bool
+  | .ifThen c t e => JsOkE c && JsOkTs t && JsOkTs e
+  | .repeatWhile c b => JsOkE c && JsOkTs b
+  | .repeatWith (.var .loc v) a b _ body => jsIdOk v && JsOkE a && JsOkE b && JsOkTs body
+  | .set lv v => JsOkS (.set lv v)
+  | .call f as => JsOkS (.call f as)
+  | .exit => true
+  | _ => false
+def JsOkTs : List Stmt → Bool
+  | [] => true
+  | s :: ss => JsOkT s && JsOkTs ss
+end
+
+mutual
+/-- `Link.EmbS` / agent-link-flow's `EmbT` refined by the one field the JavaScript generator reads beyond them:
+    `CallFunction.with_result`, which the model's opcode step sets for the local-call opcode `56` (a handler of the same script)
+    and clears for `57`; the structured cases are those of `LinkFlow.EmbT` (if-then node with both branches, `repeat while`
+    node, `repeat with` node carrying start value, bound, variable and sign) -/
 def EmbSJ (handlers : List Name) : Stmt → Node → Prop
   | .set lv v, n => Link.EmbS (.set lv v) n
   | .call f as, n => ∃ p q q' ops, n = .stmt p (.callFn (.s f) q (.loadList (S "load_list") q' ops.reverse) true false
       (handlers.contains f) .none) ∧ Link.EmbL as ops
   | .exit, n => ∃ p q, n = .stmt p (.callFn (.s (S "exit")) q .none true false false .none)
-  | _, _ => False
+  | .ifThen c t e, n => ∃ p q cn ifs els, n = .stmt p (.ifThen q cn ifs els) ∧ Link.Emb c cn ∧ EmbSsJ handlers t ifs ∧ EmbSsJ handlers e els
+  | .repeatWhile c b, n => ∃ p rp re cn body,
+      n = .stmt p (.repeat_ rp re cn body (S "while") .none (.s []) [] .none) ∧ Link.Emb c cn ∧ EmbSsJ handlers b body
+  | .repeatWith (.var .loc v) a b down body, n => ∃ p rp re cp pv1 pv2 ra rb body',
+      n = .stmt p (.repeat_ rp re (.binary (if down then S "gte" else S "lte") cp (.leaf .localVar (.s v) pv1) rb) body' (S "for") ra (.s v)
+        (if down then S "-" else S "+") (.leaf .localVar (.s v) pv2)) ∧ Link.Emb a ra ∧ Link.Emb b rb ∧ EmbSsJ handlers body body'
+  | s, n => Link.EmbSH handlers s n
 
 def EmbSsJ (handlers : List Name) : List Stmt → List Node → Prop
   | [], ns => ns = []
   | s :: ss, ns => ∃ x xs, ns = x :: xs ∧ EmbSJ handlers s x ∧ EmbSsJ handlers ss xs
+end
 
 /-! ### handlers and the three script wrappers -/
 
@@ -200,9 +261,9 @@ def txFuncs : List JFunc → Bool → Str
 def txMethod (f : JFunc) : Str :=
   S "\n" ++ Lscr.indentOf 1 ++ f.name ++ S "(" ++ txArgs f.params ++ S ") {\n" ++ txFuncBody 2 f.body ++ Lscr.indentOf 1 ++ S "}\n"
 
-/-- handlers of the fragment: identifier names, body in `JsOkSs` -/
+/-- handlers of the fragment: identifier names, body in `JsOkTs` (flat or structured) -/
 def JsOkH (h : Handler) : Bool :=
-  jsIdOk h.name && h.params.all (fun p => jsIdOk p) && h.locals.all (fun p => jsIdOk p) && JsOkSs h.body
+  jsIdOk h.name && h.params.all (fun p => jsIdOk p) && h.locals.all (fun p => jsIdOk p) && JsOkTs h.body
 
 def JsOkHs : List Handler → Bool
   | [] => true
